@@ -101,6 +101,7 @@ func init() {
 	Properties["C02"] = &PropertySpec{
 		Modules: st,
 		Rules: []Rule{
+			R62(),
 			R11(),
 			R51(),
 			Only(R22(), `filestore\.Add/content`, `recursive-removal`, `metadata-lookup-before-content`),
